@@ -87,7 +87,7 @@ def query(draw, size):
     summary = draw(st.sampled_from(["mean", "min", "max"]))
     exact = draw(st.sampled_from([True, True, True, False]))
     missing = draw(st.one_of(st.just(0.0), st.just(-1.0), st.floats(-1e9, 1e9, allow_nan=False)))
-    oob = draw(st.one_of(st.just(float("nan")), st.just(-7.0), st.floats(-1e9, 1e9, allow_nan=False)))
+    oob = draw(st.one_of(st.just(float("nan")), st.just(-7.0), st.floats(-1e9, 1e9, allow_nan=False), st.just(missing)))
     return {"s": s, "e": e, "bins": bins, "summary": summary, "exact": exact, "missing": missing, "oob": oob}
 
 
